@@ -20,7 +20,8 @@
 EXTENDS Integers, Sequences, FiniteSets, TLC
 
 Inputs == {"tgrid", "pgrid", "vgrid", "eosord", "interp", "symm", "volumes", "energy", "freq", "weights",
-           "natoms", "table", "lattice", "mass"}
+           "natoms", "table", "lattice", "mass", "vref"}
+\* (vref: the reference volume printed in the header of the static table; nothing may depend on it)
 
 VARIABLES stage, prov         \* prov: quantity name -> set of input classes
 pvars == <<stage, prov>>
@@ -78,6 +79,8 @@ StaticIgnoresT == Has("static") => Of("static") \cap {"tgrid", "freq", "weights"
 FillFirst == Has("static") => Has("filled_table") /\ Of("filled_table") \subseteq Of("static")
 \* the mode Grueneisen parameters do not depend on the temperature grid or on the energies
 GammaLocal == Has("mode_gamma") => Of("mode_gamma") \cap {"tgrid", "energy", "weights", "table", "lattice"} = {}
+\* the header reference volume of the static table is documentation only
+VrefUnused == \A qn \in DOMAIN prov : "vref" \notin prov[qn]
 Completes == <>(stage = "done")
 
 Emit == stage # "done" \/ PrintT(<<"PROV", prov>>)
